@@ -41,7 +41,7 @@ class Integration:
         self.path = path
         self.endpoint = endpoint
         kw = {}
-        if status_by_error is not None and kind != 'werkzeug':
+        if status_by_error is not None and not kind.startswith('werkzeug'):
             kw['status_by_error'] = status_by_error
         if kind == 'aiohttp':
             self.rpc = ia.Application(path, **kw)
@@ -54,7 +54,7 @@ class Integration:
             self.rpc = iw.JsonRPC(path)
             self.dispatcher = self.rpc.dispatcher
         if endpoint:
-            if kind == 'werkzeug':
+            if kind.startswith('werkzeug'):
                 raise ValueError('the werkzeug integration has no additional endpoints')
             self.dispatcher = self.rpc.add_endpoint(endpoint)
         self._ready = False
@@ -68,6 +68,9 @@ class Integration:
             self.client = self.app.test_client()
         elif self.kind == 'werkzeug':
             self.client = werkzeug.test.Client(self.rpc)
+        elif self.kind == 'werkzeug-wsgi_app':
+            # the documented way to wrap the application in wsgi middlewares: app.wsgi_app = Middleware(app.wsgi_app)
+            self.client = werkzeug.test.Client(self.rpc.wsgi_app)
         else:
             self.rpc.app.freeze()
 
@@ -75,7 +78,7 @@ class Integration:
         self.ready()
         path = path if path is not None else ((self.path or '') + self.endpoint or '/')
         headers = {} if content_type is None else {'Content-Type': content_type}
-        if self.kind in ('flask', 'werkzeug'):
+        if self.kind in ('flask', 'werkzeug', 'werkzeug-wsgi_app'):
             try:
                 r = self.client.post(path, data=body, headers=headers)
             except Exception as e:   # noqa - an exception escaping the WSGI app is not an HTTP reply
